@@ -92,7 +92,8 @@ Verdict(e, m, pre, post) ==
 \* conformance notes (never an alarm): order inside the bins, exact visit sequence
 Drift(e, m, pre, post) ==
   LET note(n) == <<[line |-> l, scn |-> e.scn, op |-> e.op, note |-> n]>>
-  IN (IF e.op \notin {"reset", "conc"} /\ ObsBins(e, m) # post THEN note("order_inside_bins_differs_from_model") ELSE <<>>)
+  IN (IF e.op \notin {"reset", "conc"} /\ ObsBins(e, m) # post /\ Total(pre) = Cardinality(Stored(pre))     \* (not after a resynchronisation to duplicates)
+      THEN note("order_inside_bins_differs_from_model") ELSE <<>>)
      \o (IF e.op = "iter" /\ e.visited # IterVisited(m, pre, e.dir, e.kind, e.at) THEN note("visit_sequence_differs_from_model") ELSE <<>>)
      \o (IF e.op = "conc" /\ ~e.detector THEN note("race_detector_off") ELSE <<>>)
 
